@@ -47,7 +47,13 @@ func genC09(env *core.Env, emit func(core.Case)) {
 			gen.NewKey(r, id+1, "public.example", gen.AllSuites),
 			gen.NewKey(r, id+7, "third.example", gen.AllSuites),
 		}
-		names := []string{"T", "A", "B", "C", "D", "E"}
+		// F: the target's key pair under another, re-issued config (same id, other suite list and
+		// maximum_name_length); G, H, I: further independent keys with the target's id and suites
+		reissued := *T
+		reissued.Config = gen.EncodeConfigWith(T.ID, 0x20, T.Priv.PublicKey().Bytes(), append([]gen.Suite{{KDF: 1, AEAD: suite.AEAD}}, otherSuites[:1]...), "public.example", 200, nil)
+		pool = append(pool, &reissued,
+			gen.NewKey(r, id, "public.example", gen.AllSuites), gen.NewKey(r, id, "public.example", gen.AllSuites), gen.NewKey(r, id, "public.example", gen.AllSuites))
+		names := []string{"T", "A", "B", "C", "D", "E", "F", "G", "H", "I"}
 		o := gen.PlanOpts{NOuterOpaque: 3, NInnerOpaque: 2, MaxExtLen: 40, Padding: 16, SIDLen: 32, RefMask: uint64(r.IntN(8)), MarkerPos: r.IntN(5),
 			InnerName: hostName(r), ALPN: alpnList(r), PublicName: "public.example"}
 		plan := gen.Plan(r, o)
@@ -161,7 +167,7 @@ func genC09(env *core.Env, emit func(core.Case)) {
 			if len(cur) == maxLen {
 				return
 			}
-			for i := 0; i < len(pool); i++ {
+			for i := 0; i < 6; i++ {
 				used := false
 				for _, c := range cur {
 					if c == i {
@@ -177,6 +183,14 @@ func genC09(env *core.Env, emit func(core.Case)) {
 		do([]int{0, 0})
 		do([]int{1, 0, 0})
 		do([]int{1, 1})
+		// the re-issued config of the same key pair next to the target, in both orders
+		do([]int{6, 0})
+		do([]int{0, 6})
+		do([]int{4, 6, 0})
+		// many candidates with the target's id and suites, the target last (every one costs a trial decryption)
+		do([]int{2, 7, 8, 0})
+		do([]int{2, 7, 8, 9, 0})
+		do([]int{1, 2, 7, 8, 9, 6, 0})
 	}
 	env.Exhaustive(fmt.Sprintf("all ordered key lists of length 1..%d without repetition from the 6-key pool, for every generated hello, first and retried", maxLen))
 	_ = rand.Int
